@@ -533,3 +533,31 @@ mutant("M65f-store-computes-first-only", ["C11"], "STORE-EAGER-1", (OPS, "      
 mutant("M65g-fresh-branch-returns-source", ["C11"], "STORE-PAIR-1", (OPS, "            return blockwise(\n                identity,\n                ind,\n                source,\n                ind,\n                dtype=source.dtype,\n                align_arrays=False,\n                target_store=target,\n                fusable_with_successors=False,\n                **blockwise_kwargs,\n            )", "            blockwise(\n                identity,\n                ind,\n                source,\n                ind,\n                dtype=source.dtype,\n                align_arrays=False,\n                target_store=target,\n                fusable_with_successors=False,\n                **blockwise_kwargs,\n            )\n            return source"))
 benign("B-block-func-counter-only", ["C06"], (OPS, "def _arg_func(a, **kwargs):\n    # pass through\n", "def _arg_func(a, **kwargs):\n    # pass through\n    tmp = dict(a)\n    tmp[\"seen\"] = True\n"))
 benign("B-task-body-helper-rename", ["C05", "C06"], (PBW, "    results = get_results_in_different_scope(out_coords, config=config)", "    results = get_results_in_different_scope(out_coords, config=config)\n    n_written = 0"))
+
+# ---------------------------------------------------------------- C01 / C15 / C17
+LINALG = "cubed/array_api/linalg.py"
+mutant(
+    "M-F1-stack-no-unify",
+    ["C01", "C17"],
+    "ALIGN-1",
+    (MANIP, "    inds = [list(range(a.ndim)) for a in arrays]\n    uc_args = chain.from_iterable(zip(arrays, inds))\n    _, arrays = unify_chunks(*uc_args, warn=False)\n\n    a = arrays[0]\n\n    axis = validate_axis(axis, a.ndim + 1)", "    a = arrays[0]\n\n    axis = validate_axis(axis, a.ndim + 1)"),
+)
+mutant("M1-concat-no-unify", ["C01", "C17"], "ALIGN-1", (MANIP, "    chunkss, arrays = unify_chunks(*uc_args, warn=False)\n\n    # offsets along axis", "    chunkss, _unified = unify_chunks(*uc_args, warn=False)\n\n    # offsets along axis"))
+mutant("M1b-concat-uses-pre-unification-list", ["C01", "C17"], "ALIGN-1", (MANIP, "    chunkss, arrays = unify_chunks(*uc_args, warn=False)\n\n    # offsets along axis", "    original = arrays\n    chunkss, arrays = unify_chunks(*uc_args, warn=False)\n    arrays = original\n\n    # offsets along axis"))
+mutant("M2-elemwise-unaligned", ["C01"], "ALIGN-1", (OPS, "        *chain.from_iterable((a, tuple(range(a.ndim)[::-1])) for a in args),\n        dtype=dtype,\n    )", "        *chain.from_iterable((a, tuple(range(a.ndim)[::-1])) for a in args),\n        dtype=dtype,\n        align_arrays=False,\n    )"))
+mutant("M3-blockwise-align-branches-swapped", ["C01"], "ALIGN-1", (OPS, "    if align_arrays:\n        chunkss, arrays = unify_chunks(*args)\n    else:", "    if not align_arrays:\n        chunkss, arrays = unify_chunks(*args)\n    else:"))
+mutant("M3b-blockwise-unified-arrays-dropped", ["C01"], "ALIGN-1", (OPS, "    if align_arrays:\n        chunkss, arrays = unify_chunks(*args)\n    else:", "    if align_arrays:\n        chunkss, _ = unify_chunks(*args)\n    else:"))
+mutant("M4-blockid-from-other-operand", ["C01", "C15"], "BLOCKID-1", (OPS, "                offset = int(a[-1])  # convert from 0-d array\n                block_id = offset_to_block_id(offset, numblocks)\n                return func(*a[:-1], block_id=block_id, **kw)\n\n            return wrap\n\n        return _map_blocks(", "                offset = int(a[-1])  # convert from 0-d array\n                block_id = offset_to_block_id(offset, args[-1].numblocks)\n                return func(*a[:-1], block_id=block_id, **kw)\n\n            return wrap\n\n        return _map_blocks("))
+mutant("M5-offsets-prepended", ["C01", "C15"], "BLOCKID-1", (OPS, "        new_arrays = arrays + (offsets,)", "        new_arrays = (offsets,) + arrays"))
+mutant("M5b-offset-read-first", ["C01", "C15"], "BLOCKID-1", (OPS, "                offset = int(a[-1])  # convert from 0-d array\n                block_id = offset_to_block_id(offset, numblocks)\n                return func(*a[:-1], block_id=block_id, **kw)\n\n            return wrap\n\n        num_input_blocks", "                offset = int(a[0])  # convert from 0-d array\n                block_id = offset_to_block_id(offset, numblocks)\n                return func(*a[:-1], block_id=block_id, **kw)\n\n            return wrap\n\n        num_input_blocks"))
+mutant("M5c-unravel-with-reversed-grid", ["C01", "C15"], "BLOCKID-1", (UTILSPY, "    return tuple(int(i) for i in np.unravel_index(offset, numblocks))", "    return tuple(int(i) for i in np.unravel_index(offset, numblocks[::-1]))"))
+mutant("M6-template-not-passed", ["C01", "C15", "C17"], "KEYNAMES-1", (MANIP, "        x,\n        template,\n        shapes=[shape],", "        x,\n        shapes=[shape],"))
+mutant("M7-key-names-stale-array", ["C01", "C15", "C17"], "KEYNAMES-1", (LINALG, "    Q = general_blockwise(\n        _q_matmul,\n        back_key_function,\n        Q1,\n        Q2_single,", "    Q = general_blockwise(\n        _q_matmul,\n        back_key_function,\n        Q1,\n        Q2,"))
+mutant("M7b-scan-key-names-input", ["C01", "C15", "C17"], "KEYNAMES-1", (OPS, "            ChunkKey(scanned.name, out_coords),\n            ChunkKey(increment.name, inc_coords),", "            ChunkKey(array.name, out_coords),\n            ChunkKey(increment.name, inc_coords),"))
+mutant("M73-in-names-reversed", ["C15", "C01"], "PROXY-KEYS-1", (OPS, "    zargs = [a._zarray for a in arrays]\n    in_names = [a.name for a in arrays]\n\n    extra_source_arrays = kwargs.pop(\"extra_source_arrays\", [])\n    source_arrays = list(arrays) + list(extra_source_arrays)\n\n    extra_projected_mem = kwargs.pop(\"extra_projected_mem\", 0)\n\n    num_input_blocks", "    zargs = [a._zarray for a in arrays]\n    in_names = [a.name for a in reversed(arrays)]\n\n    extra_source_arrays = kwargs.pop(\"extra_source_arrays\", [])\n    source_arrays = list(arrays) + list(extra_source_arrays)\n\n    extra_projected_mem = kwargs.pop(\"extra_projected_mem\", 0)\n\n    num_input_blocks"))
+mutant("M73b-zip-not-strict-truncated", ["C15"], "PROXY-KEYS-1", (PBW, "    array_map = {name: array for name, array in zip(array_names, arrays, strict=True)}", "    array_map = {name: array for name, array in zip(array_names, arrays[1:])}"))
+mutant("M73c-write-proxy-keyed-by-index", ["C15"], "PROXY-KEYS-1", (PBW, "        write_proxies[target_names[i]] = CubedArrayProxy(ta, chunksize)", "        write_proxies[f\"out_{i}\"] = CubedArrayProxy(ta, chunksize)"), also=("WRITE-GRID-1",))
+mutant("M76-concat-assert-instead-of-raise", ["C17"], "ASSERT-1", (MANIP, "    if len({a.chunksize[axis] for a in arrays if a.numblocks[axis] > 1}) > 1:\n        raise ValueError(\n            f\"all the input array chunk sizes must match along the concatenation axis: {[x.chunksize[axis] for x in arrays]}\"\n        )", "    assert len({a.chunksize[axis] for a in arrays if a.numblocks[axis] > 1}) <= 1"))
+mutant("M76b-new-raise-assertion", ["C17"], "ASSERT-1", (MANIP, "    if not arrays:\n        raise ValueError(\"Need array(s) to stack\")", "    if not arrays:\n        raise AssertionError(\"Need array(s) to stack\")"))
+benign("B-new-elemwise-function", ["C01", "C16", "C19"], ("cubed/array_api/elementwise_functions.py", "def clip(", "def hypot2(x1, x2, /):\n    x1, x2 = _promote_scalars(x1, x2, \"hypot2\")\n    return elemwise(nxp.hypot, x1, x2, dtype=result_type(x1, x2))\n\n\ndef clip("))
+benign("B-unify-in-helper", ["C01", "C17"], (MANIP, "    chunkss, arrays = unify_chunks(*uc_args, warn=False)\n\n    # offsets along axis", "    chunkss, arrays = _unify_for_concat(uc_args)\n\n    # offsets along axis"), (MANIP, "def concat(", "def _unify_for_concat(uc_args):\n    return unify_chunks(*uc_args, warn=False)\n\n\ndef concat("))
